@@ -17,7 +17,7 @@ RULE = ("cases = site-model kind x (shape 1e-2..1e2, p_inv in [0,0.99], K 1..16,
 ASSUMPTIONS = ["the identities of the statement are the specification; individual Weibull rates are compared with the median-of-equiprobable-bins discretisation written from the formula"]
 BUDGET = {"quick": 60, "thorough": 400}
 ROUNDS = {"thorough": 16}
-FLOORS = {"overlay.C05.judged": {"quick": 100, "thorough": 1500}, "read_orders": 3, "identity_checks": 200, "after_update_checks": 100, "batched_slices": 50, "kinds": 4}
+FLOORS = {"overlay.C05.judged": {"quick": 100, "thorough": 1500}, "read_orders": 3, "identity_checks": 200, "after_update_checks": 100, "batched_slices": 50, "kinds": 4, "nested_batches": 20}
 
 
 def _cases(tier, seed):
@@ -139,6 +139,11 @@ def _run_case(case):
                 row[nm] = s2.get(nm, float(gm.loguniform(rng, 0.05, 20)))
             rows.append(row)
         batch = {nm: [[row[nm]] for row in rows] for nm in subset}
+        nested = B == 4 and len(repr(case["site"])) % 2 == 0
+        if nested:
+            # a sample shape of rank two ([2,2]): chains x draws
+            batch = {nm: [v[:2], v[2:]] for nm, v in batch.items()}
+            C["nested_batches"] = 1
         try:
             mb, _ = tt.load(gm.site_json(s, batch=batch))
             rb = _np(mb.rates(), kind)
@@ -149,8 +154,8 @@ def _run_case(case):
         if rb is not None:
             ncat = len(gm.ref_site(s)[0])
             try:
-                rb2 = np.broadcast_to(rb, (B, ncat))
-                pb2 = np.broadcast_to(pb, (B, ncat))
+                rb2 = np.broadcast_to(rb, (2, 2, ncat) if nested else (B, ncat)).reshape(B, ncat)
+                pb2 = np.broadcast_to(pb, (2, 2, ncat) if nested else (B, ncat)).reshape(B, ncat)
             except ValueError:
                 V.append(tt.viol("C05:batched-shape:" + kind, "batched rates %s / probabilities %s not broadcastable to [%d,%d]" % (rb.shape, pb.shape, B, ncat), site=s, subset=subset))
                 rb2 = None
